@@ -149,11 +149,14 @@ impl DepsGraph {
             None => return,
         };
 
+        // Mark the node as visited before visiting its reverse dependencies,
+        // so that cyclic dependencies do not cause infinite recursion
+        sort_data.visited.insert(key.into_owned());
+
         for rdep in node.rdeps.iter() {
             self.visit(sort_data, rdep.as_borrowed());
         }
 
-        sort_data.visited.insert(key.into_owned());
         if let BorrowedDependency::Asset(key) = key {
             sort_data.list.push(key.clone());
         }
